@@ -445,6 +445,9 @@ def value_cases(ctx):
         envvals = [None, "", valid[0], valid[1] + (" , " + valid[2] if multi else "")] + invalid[:2]
         if multi:
             envvals += [valid[0] + ", " + (invalid[0] if invalid else valid[1])]
+            # empty elements: in the middle, at the end, alone (an empty element is a value for strings and
+            # does not convert for the numeric kinds)
+            envvals += [valid[0] + ",," + valid[1], valid[0] + "," + valid[1] + ",", ","]
         for isopt in (True, False):
             for default in DEFAULTS[kind]:
                 for nenv in range(0, ctx.scale(3, 4)):
